@@ -99,11 +99,23 @@ pub fn gen_history(pid: &str, rng: &mut Rng, uni: &Universe, persistent: bool, s
             "C13" => match roll {
                 0..=9 => {
                     // head sets with many equal timestamps, every limit around the sizes that matter
-                    let n_heads = rng.below(7) as usize;
-                    let mut heads: Vec<([u8; 32], u64)> = (0..n_heads).map(|_| ([rng.below(9) as u8 + 1; 32], T0 + rng.below(3))).collect();
-                    heads.sort();
-                    heads.dedup_by(|a, b| a.0 == b.0);
-                    let limit = match rng.below(4) { 0 => None, _ => Some(1 + rng.below(40 * (n_heads as u64 + 1)) as usize) };
+                    let (heads, limit) = if rng.chance(1, 12) {
+                        // many authors: the length prefix of the encoded list grows from one to two
+                        // bytes at 128 items; limits right around the size of the newest 128
+                        stats.inc("heads_encode_128");
+                        let n_heads = 128 + rng.below(10) as usize;
+                        let heads: Vec<([u8; 32], u64)> = (0..n_heads).map(|i| { let mut a = [7u8; 32]; a[0] = (i / 200) as u8; a[1] = (i % 200) as u8; (a, T0 + rng.below(3)) }).collect();
+                        let item = 35u64; // varint(T0..T0+2) = 3 bytes + 32
+                        let around = 2 + item * 128;
+                        (heads, Some((around + rng.below(6) - 3) as usize))
+                    } else {
+                        let n_heads = rng.below(7) as usize;
+                        let mut heads: Vec<([u8; 32], u64)> = (0..n_heads).map(|_| ([rng.below(9) as u8 + 1; 32], T0 + rng.below(3))).collect();
+                        heads.sort();
+                        heads.dedup_by(|a, b| a.0 == b.0);
+                        let limit = match rng.below(4) { 0 => None, _ => Some(1 + rng.below(40 * (n_heads as u64 + 1)) as usize) };
+                        (heads, limit)
+                    };
                     h.push(SOp::HeadsEncode { heads, limit });
                     stats.inc("heads_encode");
                 }
